@@ -228,6 +228,11 @@ class _Cand:
         self.calls += 1
         return self.score
 
+    def GetArgumentTypes(self):
+        # the candidates of one overload set are DIFFERENT functions: each has a parameter list of its own (registration may compare them)
+        import collections
+        return collections.OrderedDict([("p", ("distinct parameter type of candidate", self.i))])
+
 
 @family("C10.find", props=["C10"], functions=[T + "::Scope.FindFunction", T + "::Scope.RegisterFunction"],
         assumptions=["modular cut: candidate.Match is replaced by its contract (an arbitrary integer score >= -1 per candidate, C10.fmatch); the real sorted/filter run on the symbolic scores",
